@@ -60,3 +60,13 @@ func (v *VerifWorker) Feed(raw []byte) bool {
 	v.w.processFrame(context.Background(), frame)
 	return true
 }
+
+// Close releases every frame the worker still holds in reassembly lists back to the frame
+// buffer pool (what the periodic cleanup does for an idle worker). The harness creates one
+// worker per generated case; without this the shared pool of frame buffers runs dry.
+func (v *VerifWorker) Close() {
+	for epoch, rlist := range v.w.rlists {
+		delete(v.w.rlists, epoch)
+		rlist.removeAll()
+	}
+}
